@@ -104,7 +104,7 @@ int main(int argc, char** argv)
                 while (!fin.load())
                 {
                     std::this_thread::sleep_for(std::chrono::microseconds(200));
-                    if (clk::now() - t0 > std::chrono::seconds(8))
+                    if (clk::now() - t0 > std::chrono::seconds(12))
                     {
                         ev("quiescent").done();
                         vlog::flush();
@@ -197,7 +197,7 @@ int main(int argc, char** argv)
                     fin = 1;
                 });
                 auto t0 = clk::now();
-                while (!fin.load() && clk::now() - t0 < std::chrono::seconds(8))
+                while (!fin.load() && clk::now() - t0 < std::chrono::seconds(12))
                     std::this_thread::sleep_for(std::chrono::microseconds(200));
             }
             else
@@ -217,7 +217,7 @@ int main(int argc, char** argv)
         while (ndone.load() < nsub)
         {
             std::this_thread::sleep_for(std::chrono::microseconds(200));
-            if (clk::now() - t0 > std::chrono::seconds(8))
+            if (clk::now() - t0 > std::chrono::seconds(12))
             {
                 ev("quiescent").i("done", ndone.load()).i("submitted", nsub).done();
                 vlog::flush();
